@@ -7,8 +7,10 @@ import (
 	"math/rand"
 	"os"
 	"os/exec"
+	"reflect"
 	"runtime"
 	"sort"
+	"sync/atomic"
 	"time"
 
 	jsonrpc "github.com/filecoin-project/go-jsonrpc"
@@ -153,6 +155,12 @@ func runWS(env *Env) error {
 		var sopts []jsonrpc.ServerOption
 		if ms := args.Int("srvpingms", -1); ms >= 0 {
 			sopts = append(sopts, jsonrpc.WithServerPingInterval(time.Duration(ms)*time.Millisecond))
+		}
+		if args.Bool("tracer") { // the server option that reports every call and its results to the application
+			var traced int64
+			sopts = append(sopts, jsonrpc.WithTracer(func(method string, params []reflect.Value, results []reflect.Value, err error) {
+				atomic.AddInt64(&traced, 1)
+			}))
 		}
 		w, err := NewWorld(rec, args.Bool("reverse"), sopts...)
 		if err != nil {
